@@ -221,9 +221,12 @@ func init() {
 			out = append(out, fanKindsOpt(c, ckSize|ckIter, c.Tier != "quick", true)...)
 			out = append(out, k0Scenarios(ckSize|ckIter)...)
 			out = append(out, hugeScenarios(c)...)
+			// the hand-written collation tree keeps its own counter on its own insertion/deletion paths
+			// (collation.go): every collation template of C08, incl. the long shared paths, judged on Size/All
+			out = append(out, collScenarios(c, ckSize|ckIter, nil, []int{14, 15, 16}, 0, "")...)
 			return out
 		},
-		Bounds: commonBounds, Outside: commonOutside, Assumptions: commonAssume,
+		Bounds: append([]string{"collation trees (string, []byte, []rune keys; collator as an uninterpreted function, see C08): 2-3 insert, insert/delete/re-insert and overwrite templates with collation-key lengths 1..2 (thorough 1..3) and maxPrefixLen-1 / +2"}, commonBounds...), Outside: commonOutside, Assumptions: commonAssume,
 	})
 	register(&CheckSpec{
 		ID: "C05", Level: "model_checking", Summaries: true, Rule: stateRule,
@@ -255,7 +258,7 @@ func init() {
 		ID: "C04", Level: "model_checking", Summaries: true, Rule: stateRule,
 		Scenarios: prefixScenarios,
 		Bounds:    append([]string{"Prefix(p) with symbolic p of every key shape of the family, lengths 0..max+1"}, commonBounds...),
-		Outside:   append([]string{"collation half: see C08 (Prefix on collation trees filters the ordered scan; real collation tables are out of reach)"}, commonOutside...), Assumptions: commonAssume,
+		Outside:   append([]string{"collation half: the collator is an uninterpreted function (see C08); real collation tables, contractions and ignorables are out of reach; prefixes of collation trees are the concrete strings a, ab and the empty string"}, commonOutside...), Assumptions: commonAssume,
 	})
 	register(&CheckSpec{
 		ID: "C14", Level: "model_checking", Summaries: true, Rule: stateRule,
@@ -447,6 +450,17 @@ func prefixScenarios(c *CheckRun) []*Scenario {
 	for _, l := range []int{0, 1, 2, 3} {
 		out = append(out, histB{kind: kindAlphaB, mask: ckPrefix, label: "single key", ops: [][2]int{{opInsert, aSpec(0, 2)}}, extra: []int{aSpec(0, l)}}.scn())
 		out = append(out, histB{kind: kindAlphaB, mask: ckPrefix, label: "empty tree", extra: []int{aSpec(0, l)}}.scn())
+	}
+	// collation half of the property: Prefix(p) on collation trees for p in {"a", "ab", ""} over every
+	// collation template of C08 (p is compared with the ORIGINAL bytes of the stored strings; the
+	// collator is the uninterpreted function of C08, so nothing about contractions is assumed or needed)
+	ckinds := []int{14}
+	if c.Tier != "quick" {
+		ckinds = []int{14, 15, 16}
+	}
+	for _, ps := range []int{cSpec(0, 1), cSpec(2, 2), cSpec(4, 1)} {
+		ps := ps
+		out = append(out, collScenarios(c, ckPrefix, func(b *histB) []int { return []int{ps} }, ckinds, 0, "")...)
 	}
 	return out
 }
